@@ -36,3 +36,175 @@ Example C17_example :
   snd (run world_init [AOpen 1; AOpen 2; ADestroy; AClose 1; AOpen 3; AOpen 4; AClose 3; ADestroy; AOpen 5])
   = [OOk; OErr; OErr; OOk; OOk; OErr; OOk; OOk; OOk].
 Proof. vm_compute. reflexivity. Qed.
+
+(** * destroy_database is not atomic: the refined model [LockPhases.v] *)
+From RainVerif.model Require Import LockOwner LockPhases.
+From RainVerif.proofs Require Import LockPhasesProofs.
+
+
+(** T1: repaired code, every interleaving of open / close / destroy steps: at most one handle is
+    open and it holds the lock on the LOCK file that is there *)
+Theorem C17b_one_owner : forall acts, one_owner (fst (prun true pworld_init acts)).
+Proof. exact repaired_one_owner. Qed.
+Print Assumptions C17b_one_owner.
+
+Theorem C17b_at_most_one_open :
+  forall acts, (length (pw_open (fst (prun true pworld_init acts))) <= 1)%nat.
+Proof. exact repaired_at_most_one_open. Qed.
+Print Assumptions C17b_at_most_one_open.
+
+(** nobody is ever left with a lock on an unlinked LOCK inode *)
+Theorem C17b_no_orphan_lock : forall acts, pw_orphan (fst (prun true pworld_init acts)) = [].
+Proof. exact repaired_no_orphan. Qed.
+Print Assumptions C17b_no_orphan_lock.
+
+(** the destroyer holds the lock exactly while it is parked before the unlink *)
+Theorem C17b_destroyer_holds_lock : forall acts,
+  let w := fst (prun true pworld_init acts) in
+  pw_dphase w = 1 <-> pw_lock w = Some OwnD.
+Proof. exact repaired_destroyer_holds_lock. Qed.
+Print Assumptions C17b_destroyer_holds_lock.
+
+(** T2: an open is refused whenever somebody holds the lock; the only thing it changes is that the
+    database directories exist ([DB::open] creates them before it tries the lock) *)
+Theorem C17b_refused_open_effect : forall b w h o,
+  pw_lock w = Some o -> pstep b w (POpenH h) = (with_files w, PErr).
+Proof. exact refused_open_effect. Qed.
+Print Assumptions C17b_refused_open_effect.
+
+(** while a handle is open every further open fails and changes nothing (the directories are
+    there already) *)
+Theorem C17b_open_excludes_open : forall w h h',
+  preach true w -> pw_open w = [h] -> pstep true w (POpenH h') = (w, PErr).
+Proof. exact open_excludes_open. Qed.
+Print Assumptions C17b_open_excludes_open.
+
+(** ... and a [destroy_database] call fails at its first step and changes nothing *)
+Theorem C17b_open_excludes_destroy : forall w h,
+  preach true w -> pw_open w = [h] -> pw_dphase w = 0 -> pstep true w PDestroyStart = (w, PErr).
+Proof. exact open_excludes_destroy. Qed.
+Print Assumptions C17b_open_excludes_destroy.
+
+(** in any phase the first destroy step changes nothing while a handle is open; it answers [PNone]
+    (not enabled) instead of [PErr] when the destroyer is already parked in phase 2 *)
+Theorem C17b_open_excludes_destroy_any : forall w h,
+  preach true w -> pw_open w = [h] ->
+  pstep true w PDestroyStart = (w, if pw_dphase w =? 0 then PErr else PNone).
+Proof. exact open_excludes_destroy_any. Qed.
+Print Assumptions C17b_open_excludes_destroy_any.
+
+(** while the destroyer is parked before the unlink every open fails; nothing changes except that
+    the database directories are there again *)
+Theorem C17b_destroying_excludes_open : forall w h,
+  preach true w -> pw_dphase w = 1 -> pstep true w (POpenH h) = (with_files w, PErr).
+Proof. exact destroying_excludes_open. Qed.
+Print Assumptions C17b_destroying_excludes_open.
+
+(** T3: a failed action changes nothing, except that the last destroy step, failing because the
+    directory is not empty, ends the destroyer (phase 2 -> 0, nothing else), and that a refused
+    open leaves the database directories behind *)
+Theorem C17b_failed_action_effect : forall w a,
+  snd (pstep true w a) = PErr \/ snd (pstep true w a) = PNone ->
+  match a, snd (pstep true w a) with
+  | PDestroyFinish, PErr =>
+      pw_dphase w = 2 /\ (pw_files w || pw_lockfile w) = true /\
+      fst (pstep true w a) = reset_phase w
+  | POpenH _, PErr => pw_lock w <> None /\ fst (pstep true w a) = with_files w
+  | _, _ => fst (pstep true w a) = w
+  end.
+Proof. exact (failed_action_effect true). Qed.
+Print Assumptions C17b_failed_action_effect.
+
+Theorem C17b_failed_action_no_effect : forall w a,
+  snd (pstep true w a) = PErr \/ snd (pstep true w a) = PNone ->
+  a <> PDestroyFinish -> (forall h, a <> POpenH h) -> fst (pstep true w a) = w.
+Proof. exact (failed_action_no_effect true). Qed.
+Print Assumptions C17b_failed_action_no_effect.
+
+Theorem C17b_failed_open_no_effect_when_open : forall w h h',
+  preach true w -> pw_open w = [h] -> fst (pstep true w (POpenH h')) = w.
+Proof. exact failed_open_no_effect_when_open. Qed.
+Print Assumptions C17b_failed_open_no_effect_when_open.
+
+(** T4: the original order (release the lock, then unlink LOCK) lets two handles be open at once *)
+Theorem C17b_original_two_owners :
+  ~ one_owner (fst (prun false pworld_init race_schedule)) /\
+  length (pw_open (fst (prun false pworld_init race_schedule))) = 2%nat /\
+  snd (prun false pworld_init race_schedule) = [POk; POk; PParked; POk; PParked; POk] /\
+  pw_orphan (fst (prun false pworld_init race_schedule)) = [OwnH 2] /\
+  pw_open (fst (prun false pworld_init race_schedule)) = [3; 2].
+Proof. exact original_two_owners. Qed.
+Print Assumptions C17b_original_two_owners.
+
+Theorem C17b_original_not_single_owner :
+  exists acts, ~ one_owner (fst (prun false pworld_init acts)) /\
+               length (pw_open (fst (prun false pworld_init acts))) = 2%nat.
+Proof. exact original_not_single_owner. Qed.
+Print Assumptions C17b_original_not_single_owner.
+
+(** the same schedule against the repaired code: the racing open is refused *)
+Theorem C17b_repaired_on_race_schedule :
+  snd (prun true pworld_init race_schedule) = [POk; POk; PParked; PErr; PParked; POk] /\
+  pw_open (fst (prun true pworld_init race_schedule)) = [3] /\
+  pw_orphan (fst (prun true pworld_init race_schedule)) = [] /\
+  snd (prun true pworld_init (race_schedule ++ [PDestroyFinish; PDestroyStart])) =
+    [POk; POk; PParked; PErr; PParked; POk; PErr; PErr].
+Proof. exact repaired_on_race_schedule. Qed.
+Print Assumptions C17b_repaired_on_race_schedule.
+
+(** T5: a destroy whose three steps run back to back is the atomic destroy of [LockOwner.v] *)
+Theorem C17b_destroy_alone_succeeds : forall w,
+  preach true w -> pw_dphase w = 0 -> pw_lock w = None -> (pw_files w || pw_lockfile w) = true ->
+  prun true w destroy_steps = (mkPW None [] [] false false 0, [PParked; PParked; POk]) /\
+  pw_open w = [].
+Proof. exact destroy_alone_succeeds. Qed.
+Print Assumptions C17b_destroy_alone_succeeds.
+
+Theorem C17b_destroy_alone_fails : forall w h,
+  preach true w -> pw_dphase w = 0 -> pw_open w = [h] ->
+  prun true w destroy_steps = (w, [PErr; PNone; PNone]).
+Proof. exact destroy_alone_fails. Qed.
+Print Assumptions C17b_destroy_alone_fails.
+
+Theorem C17b_destroy_refines_atomic : forall g w,
+  preach true w -> pw_dphase w = 0 ->
+  let r := prun true w destroy_steps in
+  let s := step (abs_world g w) ADestroy in
+  snd s = abs_outs (snd r) /\
+  fst s = abs_world (match snd s with OOk => g + 1 | _ => g end) (fst r) /\
+  (snd r = [PParked; PParked; POk] \/ snd r = [PErr; PNone; PNone] /\ fst r = w).
+Proof. exact destroy_refines_atomic. Qed.
+Print Assumptions C17b_destroy_refines_atomic.
+
+(** the hypotheses above are satisfiable *)
+Example C17b_hyps_sat_destroy_succeeds :
+  let w := fst (prun true pworld_init [POpenH 1; PCloseH 1]) in
+  preach true w /\ pw_dphase w = 0 /\ pw_lock w = None /\ (pw_files w || pw_lockfile w) = true.
+Proof. exact destroy_alone_hyps_sat. Qed.
+
+Example C17b_hyps_sat_handle_open :
+  let w := fst (prun true pworld_init [POpenH 1]) in
+  preach true w /\ pw_dphase w = 0 /\ pw_open w = [1].
+Proof. exact destroy_fails_hyps_sat. Qed.
+
+Example C17b_hyps_sat_phase1 :
+  let w := fst (prun true pworld_init [POpenH 1; PCloseH 1; PDestroyStart]) in
+  preach true w /\ pw_dphase w = 1.
+Proof. exact phase1_hyps_sat. Qed.
+
+(** "every destroy-start answers PErr while a handle is open" is false without [pw_dphase w = 0] *)
+Example C17b_destroy_start_phase2 :
+  let w := fst (prun true pworld_init [POpenH 1; PCloseH 1; PDestroyStart; PDestroyUnlink; POpenH 2]) in
+  pw_open w = [2] /\ pw_dphase w = 2 /\ pstep true w PDestroyStart = (w, PNone).
+Proof. exact open_destroy_start_phase2. Qed.
+
+(** an open refused while the destroyer is parked re-creates the directories, so the destroyer's
+    final removal of the directory fails; no handle is open at the end *)
+Example C17b_refused_open_spoils_destroy :
+  let acts := [POpenH 1; PCloseH 1; PDestroyStart; POpenH 2; PDestroyUnlink; PDestroyFinish] in
+  snd (prun true pworld_init acts) = [POk; POk; PParked; PErr; PParked; PErr] /\
+  pw_open (fst (prun true pworld_init acts)) = [] /\
+  pw_lock (fst (prun true pworld_init acts)) = None /\
+  pw_files (fst (prun true pworld_init acts)) = true /\
+  pw_dphase (fst (prun true pworld_init acts)) = 0.
+Proof. exact refused_open_spoils_destroy. Qed.
